@@ -13,6 +13,9 @@
 # and all 2^13 delta values (each against both extreme values of the other field) and dense pseudo-random fields,
 # each from two predecessor states (reset, and directly behind an all-ones ITP so every bit is seen to rise and fall).
 # If the cone walk fails the check fails closed.
+#
+# Second DUT (configs dut=layer): the real USB3ProtocolLayer with free link-layer ports; every one of the 2^14 counter
+# values (plus zero / ones / single bits against both delta extremes) must reach the layer's public bus_interval in full.
 from rtlmc.model import Model, Design, Cursor, MachineryError
 from rtlmc import pysim
 from harness._gf2 import Regs, Run, ConeError, affine_cone, top_bits
@@ -121,8 +124,112 @@ def _is_reset_bit(model, bit):
     return False
 
 
+# ---- the protocol layer's public timestamp output (luna/gateware/usb/usb3/protocol/layer.py): the real
+# USB3ProtocolLayer, elaborated with a link-layer-shaped bundle of free ports (same record types as USB3LinkLayer
+# declares); only the header path link.header_source -> demultiplexer -> TimestampPacketReceiver -> bus_interval matters.
+def build_layer():
+    from amaranth import Signal
+    from luna.gateware.usb.usb3.protocol.layer import USB3ProtocolLayer
+    from luna.gateware.usb.usb3.link.header import HeaderQueue
+    from luna.gateware.usb.usb3.link.data import DataHeaderPacket
+    from luna.gateware.usb.stream import SuperSpeedStreamInterface
+
+    class LinkPorts:
+        """what USB3ProtocolLayer reads from / drives on its link layer, as unconnected ports"""
+        def __init__(self):
+            self.header_sink, self.header_source = HeaderQueue(), HeaderQueue()
+            self.data_source, self.data_sink = SuperSpeedStreamInterface(), SuperSpeedStreamInterface()
+            self.data_header_from_host = DataHeaderPacket()
+            self.data_source_complete, self.data_source_invalid = Signal(), Signal()
+            self.data_sink_send_zlp, self.data_sink_direction = Signal(), Signal()
+            self.data_sink_sequence_number, self.data_sink_endpoint_number = Signal(5), Signal(4)
+            self.data_sink_length = Signal(range(1024 + 1))
+            self.ready, self.in_reset = Signal(), Signal()
+
+    link = LinkPorts()
+    d = USB3ProtocolLayer(link_layer=link)
+    q = link.header_source
+    ins = dict(valid=q.valid, dw0=q.header.dw0, link_ready=link.ready)
+    for f in FIELDS: ins[f] = getattr(q.header, f)
+    obs = dict(bus_interval=d.bus_interval, ready=q.ready)
+    return Design(d, ins, obs, defaults=dict(link_ready=1))
+
+
+def layer_present(cur, model, counter, delta, junk):
+    """one ITP offered by the link layer; returns (failures, bus_interval seen 3 cycles after it was taken)"""
+    dw0 = ITP_TYPE | (counter << 5) | (delta << 19)
+    kw = dict(valid=1, dw0=dw0, **junk_inputs(model, junk))
+    for _ in range(4):
+        if cur.step(**kw).ready: break
+    else:
+        return [("itp-layer:not-accepted", dict(dw0=hex(dw0), note="header_source.ready never rose within 4 cycles of valid"))], None
+    for _ in range(3): o = cur.step()
+    if o.bus_interval != counter:
+        return [("itp-layer:bus_interval", dict(dw0=hex(dw0), packet_counter=counter, bus_interval=o.bus_interval, packet_delta=delta,
+                                                output_width=LAYER_WIDTH[0], field_width=14))], o.bus_interval
+    return [], o.bus_interval
+
+
+LAYER_WIDTH = [None]
+
+
+def layer_points(tier):
+    full = 0x3FFF
+    cs = [0, full] + [1 << i for i in range(14)] + [full ^ (1 << i) for i in range(14)]
+    out = [(c, d) for c in cs for d in (0, 0x1FFF)]
+    out += [(c, 0x1555) for c in range(1 << 14)]
+    if tier != "quick": out += [(c, d) for c in range(1 << 14) for d in (0, 0x1FFF, 0x0AAA)]
+    return out
+
+
+def layer_prefix(cur, model, pre):
+    cur.step()
+    if pre == "after-all-ones":
+        kw = dict(valid=1, dw0=ITP_TYPE | (0x3FFF << 5) | (0x1FFF << 19), **junk_inputs(model, 1))
+        for _ in range(4):
+            if cur.step(**kw).ready: break
+
+
+def run_layer(cfg, tier, seed):
+    model = Model(build_layer)
+    LAYER_WIDTH[0] = len(model.design.dut.bus_interval)
+    run = Run(cfg, model)
+    base = Cursor(model)
+    layer_prefix(base, model, cfg["pre"])
+    pts = layer_points(tier)
+    for k, (c, d) in enumerate(pts):
+        cur = Cursor(model, base.state)
+        fails, seen = layer_present(cur, model, c, d, k % 3)
+        run.evals += 1
+        run.states.add(cur.state)
+        if seen is not None: run.outcomes.add(seen)
+        for rule, det in fails:
+            run.violation(rule, det, [dict(layer=1, pre=cfg["pre"], counter=c, delta=d, junk=k % 3)], key=(bin(c).count("1"), c, d))
+        if not fails: run.cover["reported"] += 1
+        if c >= 0x2000: run.cover["counter-msb"] += 1
+    stream = [pts[(seed * 13 + i * 197) % len(pts)] for i in range(40)]
+    log = []
+    cur = Cursor(model, None, log)
+    layer_prefix(cur, model, cfg["pre"])
+    for i, (c, d) in enumerate(stream): layer_present(cur, model, c, d, i % 3)
+    run.validate(model, log)
+    run.samples.append([dict(counter=c, delta=d) for c, d in stream[:4]])
+    for v in list(run.viol.values())[:3]:
+        p = v["path"][0]
+        log = []
+        cur = Cursor(model, None, log)
+        layer_prefix(cur, model, p["pre"])
+        layer_present(cur, model, p["counter"], p["delta"], p["junk"])
+        run.validate(model, log)
+    return run.result(goals=["reported", "counter-msb"], depth=8,
+                      assumptions=["USB3ProtocolLayer is elaborated with its link layer replaced by free ports of the same record types; "
+                                   "ITPs are offered on link.header_source with valid held until ready, link.ready high, nothing else active",
+                                   "the layer has no timestamp strobe: bus_interval is read 3 cycles after the header was taken and must then "
+                                   "equal the packet's 14-bit bus interval counter"])
+
+
 def configs(tier):
-    return [dict(pre="reset"), dict(pre="after-all-ones")]
+    return [dict(pre="reset"), dict(pre="after-all-ones"), dict(dut="layer", pre="reset"), dict(dut="layer", pre="after-all-ones")]
 
 
 def prefix(cur, model, pre):
@@ -139,6 +246,7 @@ def present_raw(cur, model, counter, delta):
 
 def run_config(cfg, tier, seed):
     global WIDTHS
+    if cfg.get("dut") == "layer": return run_layer(cfg, tier, seed)
     WIDTHS = widths()
     model = Model(build)
     run = Run(cfg, model)
@@ -199,8 +307,18 @@ def run_config(cfg, tier, seed):
 def replay(cfg, tier, payload):
     global WIDTHS
     WIDTHS = widths()
-    model = Model(build)
     p = payload["path"][0]
+    if cfg.get("dut") == "layer":
+        model = Model(build_layer)
+        LAYER_WIDTH[0] = len(model.design.dut.bus_interval)
+        log = []
+        cur = Cursor(model, None, log)
+        layer_prefix(cur, model, p["pre"])
+        fails, seen = layer_present(cur, model, p["counter"], p["delta"], p["junk"])
+        n = pysim.replay(model, log)
+        msg = ("; ".join(f"rule={r} detail={d}" for r, d in fails) if fails else "counter reported in full") + f" [trace of {n} cycles reproduced identically in amaranth.sim]"
+        return not fails, msg
+    model = Model(build)
     log = []
     cur = Cursor(model, None, log)
     prefix(cur, model, p["pre"])
